@@ -809,6 +809,10 @@ func runC06(c *Ctx) {
 	checkPacketStartsAtZero(c, "R13")
 	checkDecodedFlagsReachTheLadder(c, "R14")
 	checkAdvertisedDataMatchesOpenSSH(c, "R15")
+	// R16 (shared with C08.O3): both frame readers accept the frames the encoders write — from the body-less five-byte
+	// packet up to the limit
+	c.withRule("R16", func() { checkFrameLimits(c, newZWorld(p)) })
+	checkDecodedPacketsDoNotAliasTheBuffer(c, "R17")
 
 	// ---------- R8 count guards refuse only what cannot fit ----------
 	checkCountGuards(c, "R8")
@@ -1942,4 +1946,43 @@ func checkDecodedFlagsReachTheLadder(c *Ctx, rule string) {
 		})
 	}
 	c.check(n >= 6, rule, "calls of the attribute ladder", "?", fmt.Sprintf("%d calls", n), fmt.Sprintf("only %d calls of unmarshalFileStat found", n))
+}
+
+// checkDecodedPacketsDoNotAliasTheBuffer (C06.R17): a packet decoded by the filexfer codec owns its bytes ("Request is
+// not allowed to alias any part of the data byte slice"): a byte-slice field is filled with ConsumeByteSliceCopy, or
+// with a copy — never with what ConsumeByteSlice hands out, which is a window into the receive buffer.  With the alias,
+// re-encoding a decoded WRITE or DATA packet after the buffer was reused gives other bytes than were decoded.
+func checkDecodedPacketsDoNotAliasTheBuffer(c *Ctx, rule string) {
+	p := c.P
+	n := 0
+	for _, fn := range p.ModuleFuncs() {
+		if fn.Pkg != p.Sshfx && fn.Pkg != p.Ossh {
+			continue
+		}
+		nm := fn.Name()
+		if nm != "UnmarshalPacketBody" && nm != "UnmarshalFrom" && nm != "UnmarshalBinary" {
+			continue
+		}
+		eachInstr(fn, func(in ssa.Instruction) {
+			st, ok := in.(*ssa.Store)
+			if !ok {
+				return
+			}
+			if sl, isSl := st.Val.Type().Underlying().(*types.Slice); !isSl || !isByteType(sl.Elem()) {
+				return
+			}
+			if _, _, _, isField := fieldOf(st.Addr); !isField {
+				return
+			}
+			n++
+			alias := false
+			for _, l := range leavesOf(st.Val) {
+				if l.Kind == leafCallResult && calleeName(l.Call) == "ConsumeByteSlice" {
+					alias = true
+				}
+			}
+			c.check(!alias, rule, "byte-slice field decoded in "+fnName(fn)+" is a copy", p.Pos(in.Pos()), "ConsumeByteSliceCopy (or a copy)", "a byte-slice field of the decoded packet is the window ConsumeByteSlice returns into the receive buffer: the packet changes when the buffer is reused")
+		})
+	}
+	c.check(n >= 2, rule, "byte-slice fields decoded by the filexfer codec", "?", fmt.Sprintf("%d stores", n), fmt.Sprintf("only %d byte-slice fields found in the filexfer decoders", n))
 }
